@@ -104,15 +104,42 @@ func fill(obj interface{}, name string, n int) error {
 		if err != nil {
 			return err
 		}
-		ins.Call(args)
+		if err := setupCall(name, ins, args); err != nil {
+			return err
+		}
 	}
 	if m := v.MethodByName("Put2"); m.IsValid() {
 		for i := 1; i <= n; i++ {
 			args, _ := synthArgs(obj, name, m.Type(), 10+i)
-			m.Call(args)
+			if err := setupCall(name, m, args); err != nil {
+				return err
+			}
 		}
 	}
 	return nil
+}
+
+// setupCall: an insertion that builds the state a generator starts from, made on a goroutine of its
+// own under the watchdog: a populating insertion that does not come back is a driver error after the
+// watchdog period (exit 2), never a driver that waits for ever.
+func setupCall(name string, m reflect.Value, args []reflect.Value) error {
+	done := make(chan struct{})
+	var err error
+	go func() {
+		defer close(done)
+		defer func() {
+			if r := recover(); r != nil {
+				err = fmt.Errorf("%s: populating call panicked: %v", name, r)
+			}
+		}()
+		m.Call(args)
+	}()
+	select {
+	case <-done:
+		return err
+	case <-time.After(watchdog):
+		return fmt.Errorf("%s: a populating insertion with an ordinary key did not come back within %v (lock left taken by an earlier insertion?)", name, watchdog)
+	}
 }
 
 // the methods that insert one element, tried in this order when populating
@@ -159,12 +186,16 @@ func newSized(name string, n int) (interface{}, error) {
 		if err != nil {
 			return nil, err
 		}
-		ins.Call(args)
+		if err := setupCall(name, ins, args); err != nil {
+			return nil, err
+		}
 	}
 	if m := v.MethodByName("Put2"); m.IsValid() { // the double queue: both lanes
 		for i := 1; i <= 2; i++ {
 			args, _ := synthArgs(obj, name, m.Type(), 10+i)
-			m.Call(args)
+			if err := setupCall(name, m, args); err != nil {
+				return nil, err
+			}
 		}
 	}
 	return obj, nil
@@ -198,7 +229,57 @@ func synthArgs(obj interface{}, tname string, ft reflect.Type, i int, peer ...in
 
 var linkedKeyType = reflect.TypeOf((*hmap.LinkedKey)(nil)).Elem()
 
+// synthMode != 0: the unusual argument values (watchdog states zero / neg / none): 1 = 0, "", nil
+// interface values, empty slices; 2 = -1, "", nil slices; 3 = the instance's own NONE sentinel (the
+// exported field NONE where the type has one, else 0), "", nil.  Pointers (a sink, the wire form, a
+// node, a peer) and comparators stay what they are in the ordinary states.
+var synthMode int
+
+func noneOf(obj interface{}, pt reflect.Type) (v reflect.Value) {
+	v = reflect.Zero(pt)
+	defer func() { recover() }()
+	if f := reflect.ValueOf(obj).Elem().FieldByName("NONE"); f.IsValid() && f.Type().ConvertibleTo(pt) {
+		switch f.Kind() {
+		case reflect.Int, reflect.Int32, reflect.Int64, reflect.Float32, reflect.Float64:
+			v = f.Convert(pt)
+		}
+	}
+	return v
+}
+
+func synthSpecial(obj interface{}, tname string, pt reflect.Type, i int) (reflect.Value, bool) {
+	switch pt.Kind() {
+	case reflect.Int, reflect.Int32, reflect.Int64, reflect.Int16, reflect.Int8, reflect.Float32, reflect.Float64:
+		switch synthMode {
+		case 2:
+			return reflect.ValueOf(-1).Convert(pt), true
+		case 3:
+			return noneOf(obj, pt), true
+		}
+		return reflect.Zero(pt), true
+	case reflect.Bool, reflect.String, reflect.Interface:
+		return reflect.Zero(pt), true
+	case reflect.Slice:
+		if synthMode == 2 {
+			return reflect.Zero(pt), true
+		}
+		s := reflect.MakeSlice(pt, 0, 2)
+		if synthMode == 3 {
+			if e, ok := synthSpecial(obj, tname, pt.Elem(), i); ok {
+				s = reflect.Append(s, e, e)
+			}
+		}
+		return s, true
+	}
+	return reflect.Value{}, false
+}
+
 func synth(obj interface{}, tname string, pt reflect.Type, i int, peer ...interface{}) (reflect.Value, error) {
+	if synthMode != 0 {
+		if v, ok := synthSpecial(obj, tname, pt, i); ok {
+			return v, nil
+		}
+	}
 	switch pt.Kind() {
 	case reflect.Int, reflect.Int32, reflect.Int64, reflect.Int16, reflect.Int8:
 		return reflect.ValueOf(i).Convert(pt), nil
